@@ -230,7 +230,7 @@ def check_property(pid, spec, tier='quick', seed=0, procs=None, write_baseline=F
                 key = 'bounded::' + fl['key']
                 rp_path = os.path.join('replays', pid, 'bounded_' + hashlib.sha1(key.encode()).hexdigest()[:12] + '.json')
                 with open(os.path.join(VERIF, rp_path), 'w') as f:
-                    json.dump({'property': pid, 'key': key, 'bounded_failure': fl}, f, indent=1, default=str)
+                    json.dump({'property': pid, 'key': key, 'target': fl.get('target'), 'inputs': fl.get('inputs'), 'found_by': 'bounded stand-in', 'what': fl.get('what')}, f, indent=1, default=str)
                 kf = match_known(pid, key, known)
                 item = {'key': key, 'replay': rp_path, 'verdict': {'violates': True, 'detail': fl.get('what', '')}}
                 if kf:
